@@ -129,6 +129,9 @@ func isPkgIdent(e *Env, n *Node) *types.Package {
 			return nil
 		}
 	}
+	if e.fr != nil && fnHasLocal(e.fr.fn, n.Name) {
+		return nil // a local variable shadows the package name
+	}
 	if e.pkg == nil {
 		return nil
 	}
@@ -840,6 +843,29 @@ func (e *Env) evalCall(n *Node) specVal {
 		case "sliceblob":
 			x := e.eval(args[0])
 			return specVal{t: v.sliceBlob(e.st, x.t), typ: tInt}
+		case "aval":
+			// aval(x.f): the value held by the atomic.Value field f of object x
+			if args[0].Kind != NSelect {
+				e.fail("aval() needs obj.field")
+			}
+			obj := e.eval(args[0].Args[0])
+			pt := deref(obj.typ)
+			_, st := namedStruct(pt)
+			for i := 0; st != nil && i < st.NumFields(); i++ {
+				if st.Field(i).Name() == args[0].Name {
+					k := v.ghostKey("atomic!"+strings.TrimPrefix(fieldKeyName(pt, st, i), "F!"), "(Array Int Iface)")
+					return specVal{t: sel(v.heap(e.st, k), obj.t), typ: types.NewInterfaceType(nil, nil)}
+				}
+			}
+			e.fail("aval(): field not found")
+		case "bval":
+			// bval(x): boolean held by an interface value (boxed)
+			x := e.eval(args[0])
+			return specVal{t: v.loadPtr(e.st, Val{T: "(i.val " + x.t + ")"}, tBool), typ: tBool}
+		case "ival":
+			// ival(x): integer payload of an interface value holding an integer
+			x := e.eval(args[0])
+			return specVal{t: "(i.val " + x.t + ")", typ: tInt}
 		case "bloblen":
 			x := e.eval(args[0])
 			return specVal{t: app(v.smt.declareFun("uf!blobLen", []string{"Int"}, "Int"), x.t), typ: tInt}
@@ -877,6 +903,26 @@ func (e *Env) evalCall(n *Node) specVal {
 			ne := *e
 			ne.old = e.li.pre
 			return ne.eval(args[0])
+		case "nrecv":
+			// nrecv(ch): how many values this execution has received from channel ch (ghost counter)
+			x := e.eval(args[0])
+			return specVal{t: sel(v.heap(e.st, v.ghostKey("nrecv", "(Array Int Int)")), x.t), typ: tInt}
+		case "digest32":
+			// digest32(k0, v0, k1, v1, …): the Hash32 made from sha256(Sum of a hash state into which
+			// exactly the tokens (kind k_i, value v_i) were written, in this order)
+			if len(args)%2 != 0 || len(args)/2 > maxDigestToks {
+				e.fail("digest32 takes up to %d (kind, value) pairs", maxDigestToks)
+			}
+			sumBlob, sum256, hash32 := v.digestFuns()
+			l := "tl.nil"
+			for i := len(args)/2 - 1; i >= 0; i-- {
+				k := e.eval(args[2*i])
+				x := e.eval(args[2*i+1])
+				l = fmt.Sprintf("(tl.cons (mk-tok %s %s) %s)", k.t, v.encVal(x.t, x.typ), l)
+			}
+			return specVal{t: app(hash32, app(sum256, app(sumBlob, l)), "0"), typ: v.eng.lookupType(pkgBitcoin, "Hash32")}
+		case "nseed":
+			return specVal{t: v.heap(e.st, v.ghostKey("nseed", "Int")), typ: tInt}
 		case "clock":
 			return specVal{t: v.heap(e.st, v.ghostKey("clock", "Int")), typ: types.Typ[types.Int64]}
 		case "fresh":
@@ -930,6 +976,9 @@ func (e *Env) evalCall(n *Node) specVal {
 			}
 			rt := uf.result(v.eng)
 			f := v.smt.declareFun(uf.smtName, sorts, v.smt.sortOf(rt))
+			if uf.smtName == "uf!PayloadType" {
+				v.payloadTypeAxioms()
+			}
 			if uf.smtName == "uf!errCause" {
 				v.smt.axiom(eq(app(f, "(mk-iface 0 0)"), "(mk-iface 0 0)"))
 			}
@@ -998,6 +1047,7 @@ func basicType(k types.BasicKind) func(e *Engine) types.Type {
 
 const pkgBitcoin = "github.com/tokenized/pkg/bitcoin"
 const pkgWire = "github.com/tokenized/pkg/wire"
+const pkgClient = "github.com/tokenized/spynode/pkg/client"
 
 var specUFs = map[string]specUF{
 	"SerializeSize": {"uf!SerializeSize", basicType(types.Int)},
@@ -1008,6 +1058,16 @@ var specUFs = map[string]specUF{
 	"BlockHashOf":   {"uf!BlockHash", extType(pkgBitcoin, "Hash32")},
 	"TxHashOf":      {"uf!TxHashOf", extType(pkgBitcoin, "Hash32")},
 	"txinCount":     {"uf!txinCount", basicType(types.Int)},
+	"PayloadType":   {"uf!PayloadType", basicType(types.Uint64)},
+	"NextPublicKeyOf": {"uf!NextPublicKey", extType(pkgBitcoin, "PublicKey")},
+	"NextKeyOf":     {"uf!NextKey", extType(pkgBitcoin, "Key")},
+	"SignOf":        {"uf!SignOf", extType(pkgBitcoin, "Signature")},
+	"PublicKeyOf":   {"uf!PublicKeyOf", extType(pkgBitcoin, "PublicKey")},
+	"SeedAt":        {"uf!SeedAt", extType(pkgBitcoin, "Hash32")},
+	"KeyEq":         {"uf!PublicKeyEqual", basicType(types.Bool)},
+	"SigVerify":     {"uf!SigVerify", basicType(types.Bool)},
+	"AcceptSigHash": {"uf!AcceptSigHash", extType(pkgBitcoin, "Hash32")},
+	"RegisterSigHash": {"uf!RegisterSigHash", extType(pkgBitcoin, "Hash32")},
 	"Cause":         {"uf!errCause", func(e *Engine) types.Type { return types.Universe.Lookup("error").Type() }},
 }
 
@@ -1036,8 +1096,12 @@ func (e *Env) sourceVar(name string, at *ssa.BasicBlock) (specVal, bool) {
 			if !ok || id.Name != name {
 				continue
 			}
-			if tv, isVar := dr.Object().(*types.Var); !isVar || tv.IsField() {
+			tv, isVar := dr.Object().(*types.Var)
+			if !isVar || tv.IsField() {
 				continue
+			}
+			if !dr.IsAddr && !types.Identical(dr.X.Type(), tv.Type()) {
+				continue // the reference was implicitly converted (e.g. to an interface): not the variable's own value
 			}
 			if depth > bestDepth || depth == bestDepth && i > bestIdx {
 				best, bestDepth, bestIdx = dr, depth, i
@@ -1152,4 +1216,27 @@ func pkgPathOf(t types.Type) string {
 		return n.Obj().Pkg().Path()
 	}
 	return ""
+}
+
+var localNames = map[*ssa.Function]map[string]bool{}
+
+// fnHasLocal: does the function declare a local variable (or parameter) of this name?
+func fnHasLocal(fn *ssa.Function, name string) bool {
+	m, ok := localNames[fn]
+	if !ok {
+		m = map[string]bool{}
+		for _, b := range fn.Blocks {
+			for _, in := range b.Instrs {
+				if dr, ok := in.(*ssa.DebugRef); ok {
+					if id, ok := dr.Expr.(*ast.Ident); ok {
+						if tv, isVar := dr.Object().(*types.Var); isVar && !tv.IsField() && tv.Pkg() != nil && tv.Parent() != tv.Pkg().Scope() {
+							m[id.Name] = true
+						}
+					}
+				}
+			}
+		}
+		localNames[fn] = m
+	}
+	return m[name]
 }
